@@ -108,9 +108,9 @@ type zzItem struct {
 func zzStr(s string) *string { return &s }
 
 // zzResponse builds one plugin response of up to 2 items from a menu.
-func zzResponse(who string, items *[]zzItem, baseTok string) *plugin.Response {
+func zzResponse(who string, items *[]zzItem, baseTok string, maxItems int) *plugin.Response {
 	res := plugin.NewResponse()
-	n := zzrt.Choose(who+".n", 3)
+	n := zzrt.Choose(who+".n", maxItems+1)
 	lastTok, lastDup := "", false
 	for i := 0; i < n; i++ {
 		tok := "<" + who + zzItoa(i) + ">"
@@ -179,10 +179,15 @@ func H_C11_generate(nplug int) {
 	out := &LangSpec{Language: "go", Options: []plugin.Option{{Name: zzrt.String("o1", 1), Desc: zzrt.String("d1", 1)}, {Name: "k"}, {Name: "k", Desc: "2"}}}
 	var plugs []*zzPlug
 	failing := -1
+	// three plugins: one item per response and all-or-no options keep the choice space tractable
+	maxItems, optChoices := 2, []int{0, 1, 2, 3}
+	if nplug >= 3 {
+		maxItems, optChoices = 1, []int{0, 3}
+	}
 	for i := 0; i < nplug; i++ {
 		who := "p" + zzItoa(i)
 		p := &zzPlug{name: who}
-		p.res = zzResponse(who, &items, baseTok)
+		p.res = zzResponse(who, &items, baseTok, maxItems)
 		p.res.Warnings = []string{who + "w1", who + "w2"}
 		if failing < 0 && zzrt.Bool(who+".fails") {
 			p.res.Error = zzStr("boom " + who)
@@ -192,7 +197,7 @@ func H_C11_generate(nplug int) {
 		plugs = append(plugs, p)
 		// 0..3 options: a plugin without options must see none (not the previous plugin's)
 		all := []plugin.Option{{Name: who + "k", Desc: zzrt.String(who+"v", 1)}, {Name: "z"}, {Name: "a", Desc: "1"}}
-		out.UsedPlugins = append(out.UsedPlugins, &plugin.Desc{Name: who, Options: all[:zzrt.Choose(who+".nopt", 4)]})
+		out.UsedPlugins = append(out.UsedPlugins, &plugin.Desc{Name: who, Options: all[:optChoices[zzrt.Choose(who+".nopt", len(optChoices))]]})
 	}
 	// optionally an in-process (SDK) plugin with parameters of its own runs before the external ones
 	var sdk *zzSDK
